@@ -581,6 +581,34 @@ def bounded_histories(ctx):
     while len(histories) < budget:
         L = int(rng.integers(2, maxlen + 1))
         histories.append((str(rng.choice(list(structures))), tuple(str(rng.choice(ops_all)) for _ in range(L))))
+    # what ANOTHER crystal object was asked -- with other argument values -- leaves no trace: the answers of a fresh copy before and after such foreign calls are equal
+    # (state shared between objects: module-level tables updated in place, class-level defaults)
+    with contextlib.redirect_stdout(io.StringIO()):
+        for sname in structures:
+            evals += 1
+            distinct.add((sname, "foreign_calls"))
+            bad = None
+            try:
+                probe = ("unit_cell_atoms", "unit_cell_connectivity", "unit_cell_molecules", "symmetry_unique_molecules", "density", "atoms_in_radius")
+                before = {q: _summ(QUERIES[q](copy.deepcopy(structures[sname]))) for q in probe}
+                other = copy.deepcopy(structures[sname])
+                for call_ in (lambda c_: c_.unit_cell_atoms(tolerance=0.05), lambda c_: c_.unit_cell_connectivity(tolerance=0.65, covalent_radii={1: 0.85, 6: 1.3, 8: 1.1, 20: 0.5}),
+                              lambda c_: copy.deepcopy(structures[sname]).unit_cell_molecules(bond_tolerance=0.1), lambda c_: c_.atomic_surroundings(radius=2.5),
+                              lambda c_: c_.molecule_environments(radius=3.0, threshold=0.5), lambda c_: c_.atoms_in_radius(2.0, origin=(1.0, 2.0, 3.0))):
+                    try:
+                        call_(other)
+                    except Exception:  # noqa -- a call the library rejects is still a call another object made
+                        pass
+                after = {q: _summ(QUERIES[q](copy.deepcopy(structures[sname]))) for q in probe}
+                diff = [q for q in probe if before[q] != after[q]]
+                if diff:
+                    bad = {"what": f"answers {diff} of a fresh copy changed after another crystal object was queried with non-default arguments"}
+            except Exception as e:  # noqa
+                bad = {"what": "exception " + repr(e)[:200]}
+            if bad and len(fails) < 3:
+                fails.append({"input": {"structure": sname, "history": "fresh copy: queries; ANOTHER copy: unit_cell_atoms(tolerance=0.05), unit_cell_connectivity(tolerance=0.65, covalent_radii={...}), "
+                                        "unit_cell_molecules(bond_tolerance=0.1), atomic_surroundings(2.5), molecule_environments(3.0, 0.5), atoms_in_radius(2.0, origin); fresh copy: same queries"},
+                              "observed": bad, "clause": "a crystal's derived answers do not depend on what other crystal objects were asked before", "key": "foreign_state"})
     for sname in structures:
         histories.append((sname, ("unit_cell_molecules", "symmetry_unique_dimers", "unit_cell_molecules")))
         histories.append((sname, ("density", "unit_cell_atoms", "density")))
